@@ -1052,9 +1052,12 @@ def _ml_run(name, kind):
                 if not abs(l1 - l2) <= P_RTOL * (1.0 + abs(l1)):
                     raise Violation("%s: %s: knee points (SD=%r, ND=%r) and (SD=%r, ND=%r) are not on the same line" % (
                         name, kind, ra["SD"], ra["ND"], back["SD"], back["ND"]), bucket="%s:%s:line" % (name, kind))
-        ctx.label("pdev" + _bucket(max(devs[p] for p in compare)))
+        ctx.label("pdev" + _bucket(max(devs[p] for p in compare if not (inf_only and p == "ND"))))
         for p in compare:
-            if not devs[p] <= P_RTOL:
+            # MaxLikeInf reads ND off the fitted line at its SD: a relative error e in SD (its search resolves SD only through the
+            # absolute xatol / ftol of fmin, 1e-4 observed in micro-units) is a relative error k_1 * e in ND
+            ptol = P_RTOL * max(1.0, abs(ra["k_1"])) if (inf_only and p == "ND") else P_RTOL
+            if not devs[p] <= ptol:
                 raise Violation("%s: %s%s: %s = %r mapped back, original run %r (log-likelihoods agree to %.1e)" % (
                     name, kind, "" if c is None else " x %r" % c, p, back[p], ra[p], dll), bucket="%s:%s:%s" % (name, kind, p))
         if len(s["levels"]) >= 3 and s["n_runouts"] >= 1:
@@ -1096,6 +1099,8 @@ def _register_ml():
         if tag in ("cycles_float", "perm_fresh_index"):
             continue        # cycles do not enter the infinite-zone likelihood; one cycle lane and one permutation lane suffice
         v += 1
+        if kind == "load":
+            scale = _wpow2 if scale is _pow2 else st.one_of(_wfscale, _decades)      # the wide unit range (see WIDE_SCALES)
         subcheck(PROP, "mlinf_%s" % tag, strategy=_ml_cases(kind, scale, keep, ["mixed2"], v), quick=12, thorough=300,
                  doc="MaxLikeInf, %s: infinite-zone likelihood level 1e-6, parameters rtol 1e-3; k_1, TN as Elementary; ML >= start" % tag)(
             _ml_run("MaxLikeInf", kind))
